@@ -18,7 +18,7 @@
   size ≤ 2^31 (resp. < 2^31 = INT_MAX+1); `ring_move_head_size_witness` shows
   that the bound is necessary for the code as written (recorded finding).
 -/
-import IgrisModel.C03.More4
+import IgrisModel.C03.More5
 namespace Igris.C03
 open Igris.Proto
 
@@ -744,7 +744,8 @@ theorem ring_lifetime_values_repaired {α : Type} (v : VRing α) (x d : α) :
 `n + 1 < 2^32` and run ANY script of `push`/`emplace` (also `push(head_place())`,
 the argument aliasing the slot), `pop`, `clear`, `resize`,
 copy construction, move construction and copy assignment to another ring
-(`unbounded_array::operator=`), carrying on with the new object —
+(`unbounded_array::operator=`), carrying on with the new object, and (round 3b, repair
+6d59c1e) pushes whose element constructor THROWS and is caught by the caller —
 contract-respecting or not: push on a full ring, pop on an empty one included —
 and let the last object go out of scope.  Then no operation faults, and
 * no object was ever constructed over a living object (`overLive = 0`),
@@ -764,10 +765,10 @@ theorem ring_lifetime_exactly_once {α : Type} (dflt : α) (n : Nat) (hn : n + 1
   obtain ⟨h1, h2, h3, h4, h5⟩ := VRing.invalidate_good g
   exact ⟨v, e, g.live, h1, h2, h3, h4, h5⟩
 
-example : ∀ op ∈ [VOp.push (1 : Int), .pushSelf, .pop, .pop, .clear, .resize 5, .copy, .move, .assign 3], op.ok := by
+example : ∀ op ∈ [VOp.push (1 : Int), .pushSelf, .pop, .pop, .clear, .resize 5, .copy, .move, .assign 3, .pushThrow], op.ok := by
   intro op h
   simp only [List.mem_cons, List.not_mem_nil, or_false] at h
-  rcases h with rfl | rfl | rfl | rfl | rfl | rfl | rfl | rfl | rfl <;> simp [VOp.ok]
+  rcases h with rfl | rfl | rfl | rfl | rfl | rfl | rfl | rfl | rfl | rfl <;> simp [VOp.ok]
 
 /-- what one `push` / `pop` does to the objects: in a ring whose slots all live,
 exactly one object is destroyed and exactly one is constructed (in the same slot),
@@ -1132,23 +1133,71 @@ theorem cyclic_buffer_int_safe {α : Type} (c : Cyclic α) (n : Nat) (log : List
   · rw [e1, if_pos]; rw [hk]; unfold inInt; omega
   · rw [e2, if_pos]; rw [hk]; unfold inInt at hi ⊢; omega
 
-/-- `igris::ring<T>::write(buf, sz)` hands the `size_t sz` to an `unsigned int`
-parameter: it is `ring_write` of the whole data IFF-side `sz < 2^32`; a request of
-`2^32 + k` elements is served as a request of `k` (model only: needs a source of
-more than 4 GiB; the return value tells the caller). -/
-theorem ring_typed_write_width {α : Type} (t : TRing α) (d : List α) (k : Nat) :
+/-- BEFORE the repair ab63e64 (round 3b; statement unchanged from round 3, now about
+`writeCOrig`): `igris::ring<T>::write(buf, sz)` handed the `size_t sz` to an `unsigned int`
+parameter: it was `ring_write` of the whole data for `sz < 2^32`; a request of
+`2^32 + k` elements was served as a request of `k`. -/
+theorem ring_typed_write_width_orig {α : Type} (t : TRing α) (d : List α) (k : Nat) :
     (d.length < 2 ^ 32 →
-      t.writeC d = (ringWrite t.r t.buf d).map fun (r', b', n) => (⟨r', b'⟩, n)) ∧
+      t.writeCOrig d = (ringWrite t.r t.buf d).map fun (r', b', n) => (⟨r', b'⟩, n)) ∧
     (k < 2 ^ 32 → d.length = 2 ^ 32 + k →
-      t.writeC d = (ringWrite t.r t.buf (d.take k)).map fun (r', b', n) => (⟨r', b'⟩, n)) := by
+      t.writeCOrig d = (ringWrite t.r t.buf (d.take k)).map fun (r', b', n) => (⟨r', b'⟩, n)) := by
   constructor
   · intro h
-    unfold TRing.writeC
+    unfold TRing.writeCOrig
     rw [Nat.mod_eq_of_lt h, List.take_of_length_le (Nat.le_refl _)]
   · intro hk hl
-    unfold TRing.writeC
+    unfold TRing.writeCOrig
     have : d.length % 2 ^ 32 = k := by omega
     rw [this]
+
+/-- ring_typed_write_width (the code AFTER the repair ab63e64: `if (sz > r.size) sz = r.size;`):
+`igris::ring<T>::write(buf, sz)` / `read(buf, sz)` for EVERY `size_t` request `sz`, also
+`sz ≥ 2^32`: on a ring that stores `q`, a `write` whose source holds the elements `d`
+(`|d| ≤ sz`: the request may be larger than what the loop ever looks at) is `ring_write`
+of `d` — it accepts `min |d| room` elements and appends exactly them; a `read` of `sz`
+is `ring_read` of `sz` — it delivers the `min sz |q|` oldest elements.  Generated with
+requests of `2^32 + k` (`writebig` / `readbig`). -/
+theorem ring_typed_write_width {α : Type} (t : TRing α) (q d : List α) (sz : Nat)
+    (h : Abs t.r t.buf q) (hd : d.length ≤ sz) :
+    t.writeC d sz = (ringWrite t.r t.buf d).map (fun (r', b', n) => (⟨r', b'⟩, n)) ∧
+    ∃ t', t.writeC d sz = some (t', min d.length (t.r.size.toNat - 1 - q.length)) ∧
+      Abs t'.r t'.buf (q ++ d.take (t.r.size.toNat - 1 - q.length)) := by
+  have hl := h.2.2.1
+  have hc := cnt_lt t.r h.1
+  have e : ringWrite t.r t.buf (d.take (min sz t.r.size.toNat)) = ringWrite t.r t.buf d := by
+    by_cases hs : d.length ≤ t.r.size.toNat
+    · rw [List.take_of_length_le (by omega)]
+    · exact writeAux_take d 0 _ h (by omega)
+  have e' : t.writeC d sz = (ringWrite t.r t.buf d).map (fun (r', b', n) => (⟨r', b'⟩, n)) := by
+    unfold TRing.writeC; rw [e]
+  refine ⟨e', ?_⟩
+  obtain ⟨r', b', ew, ha⟩ := abs_write d h
+  exact ⟨⟨r', b'⟩, by rw [e', ew]; rfl, ha.2⟩
+
+theorem ring_typed_read_width (t : TRing Byte) (q : List Byte) (sz : Nat) (h : Abs t.r t.buf q) :
+    t.readC sz = ringRead t.r t.buf sz ∧
+    ∃ r', t.readC sz = some (r', q.take sz) ∧ Abs r' t.buf (q.drop sz) := by
+  have hl := h.2.2.1
+  have hc := cnt_lt t.r h.1
+  have e : t.readC sz = ringRead t.r t.buf sz := by
+    unfold TRing.readC ringRead
+    by_cases hs : sz ≤ t.r.size.toNat
+    · rw [Nat.min_eq_left hs]
+    · rw [Nat.min_eq_right (by omega)]
+      exact readWith_past_end q [] _ _ h (by omega) (by omega)
+  refine ⟨e, ?_⟩
+  obtain ⟨r', er, ha⟩ := ring_read_delivers t.r t.buf q sz h
+  exact ⟨r', by rw [e, er], ha⟩
+
+example : Abs (TRing.mk' (0 : Byte) 3).r (TRing.mk' (0 : Byte) 3).buf [] := (TRing.mk'_abs 0 3 (by decide)).2.2
+
+/-- the request `2^32 + 1` on `ring<char>(3)` holding 3 bytes: served as 1 before the
+repair, completely now -/
+theorem ring_typed_read_width_orig_witness :
+    let t : TRing Byte := ⟨⟨3, 0, 4⟩, [1, 2, 3, 0]⟩
+    (t.readCOrig (2 ^ 32 + 1)).map (·.2) = some [1] ∧ (t.readC (2 ^ 32 + 1)).map (·.2) = some [1, 2, 3] := by
+  decide
 
 example : inInt (0 : Int) := by decide
 
@@ -1164,5 +1213,133 @@ theorem ring_get_head_place_moved {α : Type} (dflt : α) (t : TRing α) (q : Li
     t.headPlace = t.get t.r.head.toNat ∧
     TRing.resize dflt t.move.2 n = TRing.mk' dflt n :=
   ⟨fun i hi => h.2.2.2 i hi, rfl, rfl⟩
+
+/-! ## 26. round 3b: `emplace` with an aliasing argument (still reads a dead object: finding),
+a throwing element constructor (repaired 6d59c1e) -/
+
+/-- ring_emplace_alias_exact: `r.emplace(r.head_place())` (the argument aliases the
+head slot; `emplace` has no aliasing test, `push` has one) on a ring whose slots
+all hold living objects, in ANY fill state: indices and values end up exactly as
+after `r.push(r.head_place())` (the slot keeps its value, the head moves on), every
+slot holds a living object again, nothing is constructed over a living object and
+no destructor runs on a dead slot — but the copy constructor has read the object
+that `place->~T()` had just destroyed: EXACTLY ONE copy from a dead object.
+Harmless for trivially destructible `T`, undefined behaviour otherwise (finding
+`C03-emplace-alias-head-slot`). -/
+theorem ring_emplace_alias_exact {α : Type} (v : VRing α) (g : VRing.Good v) :
+    ∃ v', v.emplaceSelf = some v' ∧ v'.t.buf = v.t.buf ∧ v'.t.r = ringMoveHeadOne v.t.r ∧
+      v'.live = List.replicate v'.t.buf.length true ∧
+      v'.overLive = 0 ∧ v'.deadDtor = 0 ∧ v'.deadRead = 1 ∧
+      v'.ctor = v.ctor + 1 ∧ v'.dtor = v.dtor + 1 := by
+  obtain ⟨v', e, ht, h⟩ := VRing.emplaceSelf_good g
+  exact ⟨v', e, by rw [ht]; rfl, by rw [ht]; rfl, h⟩
+
+/-- `ring<T>(1); emplace(head_place()); ~ring`: 1 copy from a dead object; the same
+script with `push(head_place())`: none -/
+theorem ring_emplace_alias_witness :
+    ((VRing.mk' (0 : Int) 1).emplaceSelf.map fun v => (v.destroy.overLive, v.destroy.deadDtor, v.destroy.deadRead)) =
+      some (0, 0, 1) ∧
+    ((VRing.mk' (0 : Int) 1).pushSelf.destroy.deadRead = 0) := by
+  decide
+
+/-- ring_push_throwing_copy_exact (the code AFTER the repair 6d59c1e: `try { new (place)
+T(obj); } catch (...) { new (place) T(); throw; }`): exception safety of `push(obj)` /
+`emplace(args)` when the element's constructor throws, on a ring whose slots all hold
+living objects, in ANY fill state.
+* STRONG guarantee for everything C03 speaks about: head, tail and size are what
+  they were, and whatever queue the ring stored it still stores (`Abs` for the same
+  `q`: avail, room, tail(), last(), get_last … all answer as before the call); the only
+  slot written is the free head slot, which now holds `T()`.
+* BASIC guarantee for the objects: every slot holds a living object again, no
+  forbidden event, exactly one destructor and one constructor call.
+`ring_lifetime_exactly_once` (§16) now quantifies over scripts that contain such
+throwing pushes (`VOp.pushThrow`). -/
+theorem ring_push_throwing_copy_exact {α : Type} (v : VRing α) (g : VRing.Good v) (d : α) :
+    ∃ v', v.pushThrow d = some v' ∧ v'.t.r = v.t.r ∧
+      (∀ i, i ≠ v.t.r.head.toNat → v'.t.buf[i]? = v.t.buf[i]?) ∧
+      (∀ q, Abs v.t.r v.t.buf q → Abs v'.t.r v'.t.buf q) ∧
+      v'.live = List.replicate v'.t.buf.length true ∧
+      v'.overLive = 0 ∧ v'.deadDtor = 0 ∧ v'.deadRead = 0 ∧
+      v'.ctor = v.ctor + 1 ∧ v'.dtor = v.dtor + 1 := by
+  obtain ⟨v', e, g', hr, hb, hc, hd⟩ := VRing.pushThrow_good d g
+  refine ⟨v', e, hr, ?_, ?_, g'.live, g'.over, g'.dead, g'.read, hc, hd⟩
+  · intro i hi
+    rw [hb, List.getElem?_set_ne (Ne.symm hi)]
+  · intro q hq
+    rw [hr, hb]
+    exact abs_set_head d hq
+
+example : VRing.Good (VRing.mk' (0 : Int) 2) := VRing.mk'_good 0 2 (by decide)
+
+/-- what was wrong BEFORE 6d59c1e (`place->~T(); new (place) T(obj);` without a handler):
+values and indices untouched (`v'.t = v.t`), but the head slot — and only it — was left
+without a living object; scope exit then ran exactly one destructor on the dead slot
+(one destructor call more than constructor calls), a retried `push(x)` ran that one
+destructor on the dead slot before it stored `x`. -/
+theorem ring_push_throwing_copy_orig {α : Type} (v : VRing α) (g : VRing.Good v) (x : α) :
+    ∃ v', v.pushThrowOrig = some v' ∧ v'.t = v.t ∧
+      (∀ i, v'.live.getD i false = (decide (i < v.t.buf.length) && decide (i ≠ v.t.r.head.toNat))) ∧
+      v'.overLive = 0 ∧ v'.deadDtor = 0 ∧ v'.deadRead = 0 ∧
+      v'.destroy.deadDtor = 1 ∧ v'.destroy.dtor = v'.destroy.ctor + 1 ∧
+      ∃ v'', v'.push x = some v'' ∧ v.t.push x = some v''.t ∧ v''.deadDtor = 1 ∧ v''.overLive = 0 ∧
+        v''.live = List.replicate v''.t.buf.length true := by
+  obtain ⟨v', e, ht, hl, h1, h2, h3, -, -⟩ := VRing.pushThrowOrig_spec g
+  obtain ⟨a1, a2, v'', e2, b1, b2, b3, b4⟩ := VRing.pushThrowOrig_after g e x
+  refine ⟨v', e, ht, ?_, h1, h2, h3, a1, a2, v'', e2, b4, b1, b2, b3⟩
+  intro i
+  rw [hl, List.getD_eq_getElem?_getD, List.getElem?_set]
+  by_cases hi : i < v.t.buf.length <;> by_cases hh : v.t.r.head.toNat = i <;>
+    simp [hi, hh, List.getElem?_replicate, Ne.symm, eq_comm]
+
+/-- `ring<T>(1); push(x) with a throwing T(x); ~ring`: (constructed over a living
+object, destructor on a dead slot, constructor calls, destructor calls) was (0, 1, 2, 3),
+is (0, 0, 3, 3) -/
+theorem ring_push_throwing_copy_orig_witness :
+    ((VRing.mk' (0 : Int) 1).pushThrowOrig.map fun v =>
+      (v.destroy.overLive, v.destroy.deadDtor, v.destroy.ctor, v.destroy.dtor)) = some (0, 1, 2, 3) ∧
+    (((VRing.mk' (0 : Int) 1).pushThrow 0).map fun v =>
+      (v.destroy.overLive, v.destroy.deadDtor, v.destroy.ctor, v.destroy.dtor)) = some (0, 0, 3, 3) := by
+  decide
+
+/-! ## 27. round 3b: `unbounded_array::fill / clear / begin / end / operator=` -/
+
+/-- unbounded_array_fill: on an array of ANY size whose slots all hold living objects,
+`fill(val)` — the range-for from `begin()` to `end()` — terminates within `size()`
+steps, never stores outside the array, assigns to living objects only, constructs
+and destroys nothing, and leaves exactly `size()` copies of `val`;
+`end() − begin() = size()`. -/
+theorem unbounded_array_fill {α : Type} (a : UArr α) (g : UArr.Good a) (val : α) :
+    ∃ a', a.fill val = some a' ∧ a'.data = List.replicate a.data.length val ∧
+      a'.live = List.replicate a.data.length true ∧ a'.deadAssign = 0 ∧ a'.deadDtor = 0 ∧
+      a'.ctor = a.ctor ∧ a'.dtor = a.dtor ∧ a.iterEnd - a.iterBegin = a.data.length := by
+  obtain ⟨a', e, ga, hd, hc, hdt⟩ := UArr.fillLoop_spec val a.data.length 0 a g (Nat.zero_le _) (Nat.le_refl _)
+  have hd' : a'.data = List.replicate a.data.length val := by simpa using hd
+  refine ⟨a', e, hd', ?_, ga.asg, ga.dead, hc, hdt, rfl⟩
+  rw [ga.live, hd', List.length_replicate]
+
+example : UArr.Good (UArr.mk' (0 : Int) 3) := UArr.mk'_good 0 3
+
+/-- unbounded_array_clear_assign: `clear()` destroys every element exactly once and
+leaves an empty array whose destructor has nothing left to destroy; `x = x`
+(self-assignment) is the identity — no element touched; `x = y` leaves exactly the
+elements of `y`, every old element destroyed once, every new one constructed once,
+the ledger balanced again; `resize(n)` likewise with `n` value-initialised elements. -/
+theorem unbounded_array_clear_assign {α : Type} (dflt : α) (a : UArr α) (g : UArr.Good a) (s : List α) (n : Nat) :
+    (a.clear.data = [] ∧ a.clear.dtor = a.dtor + a.data.length ∧ a.clear.deadDtor = 0 ∧
+      a.clear.ctor = a.clear.dtor ∧ a.clear.invalidate = a.clear) ∧
+    a.assign none = a ∧
+    ((a.assign (some s)).data = s ∧ UArr.Good (a.assign (some s)) ∧
+      (a.assign (some s)).dtor = a.dtor + a.data.length ∧ (a.assign (some s)).ctor = a.ctor + s.length) ∧
+    ((a.resize dflt n).data = List.replicate n dflt ∧ UArr.Good (a.resize dflt n)) := by
+  obtain ⟨h1, h2, h3, g'⟩ := UArr.invalidate_good g
+  have hl : a.live.length = a.data.length := by rw [g.live, List.length_replicate]
+  refine ⟨⟨rfl, ?_, h2, h3, ?_⟩, rfl, ⟨rfl, ?_, ?_, rfl⟩, rfl, ?_⟩
+  · simp only [UArr.clear, UArr.invalidate, hl]
+  · simp [UArr.clear, UArr.invalidate, LRing.deadCount]
+  · refine ⟨rfl, h2, g.asg, ?_⟩
+    simp only [UArr.assign, UArr.invalidate, hl]; have := g.bal; omega
+  · simp only [UArr.assign, UArr.invalidate, hl]
+  · refine ⟨by simp [UArr.resize], h2, g.asg, ?_⟩
+    simp only [UArr.resize, UArr.invalidate, hl, List.length_replicate]; have := g.bal; omega
 
 end Igris.C03
